@@ -140,7 +140,7 @@ Proof. induction sts as [|st r IH]; intros s H; [exact H|]. cbn. apply IH, iu_st
 (* exactly once for an unsubscribed subscription: wherever the unsubscription happens *)
 Theorem finalize_unsub_once sh a b : calls (run_finalize sh (a ++ ZUnsub :: b)) = 1.
 Proof.
-  unfold run_finalize. pose proof (run_conserve sh (a ++ ZUnsub :: b) zstate0) as C. cbn [z_func zstate0] in C.
+  unfold run_finalize. pose proof (run_conserve sh (a ++ ZUnsub :: b) zstate0) as C. cbn [z_func zstate0 zstate1] in C.
   assert (Hf : z_func (zfinal sh zstate0 (a ++ ZUnsub :: b)) = false).
   { rewrite zfinal_app. cbn [zfinal]. apply func_gone_stays.
     pose proof (iu_final sh a zstate0 (fun H => ltac:(discriminate))) as I0.
@@ -153,7 +153,7 @@ Theorem finalize_term_once a b e :
   is_term e = true -> z_src (zfinal FPlain zstate0 a) = true ->
   calls (run_finalize FPlain (a ++ ZSrc e :: b)) = 1.
 Proof.
-  intros He Hs. unfold run_finalize. pose proof (run_conserve FPlain (a ++ ZSrc e :: b) zstate0) as C. cbn [z_func zstate0] in C.
+  intros He Hs. unfold run_finalize. pose proof (run_conserve FPlain (a ++ ZSrc e :: b) zstate0) as C. cbn [z_func zstate0 zstate1] in C.
   assert (Hf : z_func (zfinal FPlain zstate0 (a ++ ZSrc e :: b)) = false).
   { rewrite zfinal_app. cbn [zfinal]. apply func_gone_stays. cbn [zstep]. rewrite Hs, He.
     destruct (fin_step_calls {| z_src := false; z_take_alive := z_take_alive (zfinal FPlain zstate0 a);
@@ -320,12 +320,19 @@ Proof.
     + cbn [zstep is_trigger]. rewrite Hn, Hf. cbn. unfold SInv; cbn; repeat split; auto; discriminate.
 Qed.
 
-Lemma sinv0 sh : SInv sh zstate0 fspec0.
+Lemma sinv1 c sh : SInv sh (zstate1 c) (fspec1 c).
 Proof.
   unfold SInv. cbn. split; [reflexivity|]. intros _. destruct sh as [|n|ev n]; repeat split; auto.
   - destruct n; [left; reflexivity|right; split; [reflexivity|lia]].
   - destruct n; reflexivity.
 Qed.
+
+Lemma sinv0 sh : SInv sh zstate0 fspec0.
+Proof. exact (sinv1 true sh). Qed.
+
+(* on unsubscription the input is disconnected before the callback runs *)
+Lemma unsub_disconnects sh s : z_src (fst (zstep sh s ZUnsub)) = false \/ z_unsub s = true.
+Proof. cbn [zstep]. destruct (z_unsub s); [right; reflexivity|left; reflexivity]. Qed.
 
 Theorem finalize_meets_spec gap sh : gap = true \/ evicting sh = false ->
   forall sts s sp, SInv sh s sp -> fin_ok gap sh sp sts (zrun_segs sh s sts) = 0.
